@@ -341,7 +341,7 @@ Proof. intros Hle H. eapply Forall_impl; [|exact H]. intros c Hc. eapply pr_msgs
 
 Lemma pr_step_ent s e s' o : pr_ent s -> pr_step s e = Some (s', o) -> pr_ent s'.
 Proof.
-  unfold pr_ent. intros He. destruct e as [c now|t| |t now|t now|cum gaps| ]; cbn [pr_step].
+  unfold pr_ent. intros He. destruct e as [c now|t| |t now|t|t now|cum gaps| ]; cbn [pr_step].
   - destruct (pr_send s c now) as [s1|] eqn:E; [|discriminate]. intros H; inversion H; subst; clear H.
     destruct (pr_send_shape _ _ _ _ E) as (m2 & Hle & (x & Hx & _) & _ & _ & ->). cbn [pr_infl pr_msgs].
     assert (Hle2 := pr_check_status_le s m2 (pr_with c 1 false false now) now).
@@ -356,8 +356,11 @@ Proof.
     apply Forall_forall. intros y Hy. apply in_map_iff in Hy. destruct Hy as (c & <- & Hc).
     rewrite Forall_forall in He. specialize (He c Hc). destruct (pr_acked c || _); cbn; exact He.
   - unfold pr_retransmit. destruct (pr_get (pr_infl s) t) as [c|] eqn:Eg; [|discriminate].
-    destruct (negb (pr_rtx c)); [discriminate|]. intros H; inversion H; subst; clear H. cbn [pr_set_core pr_infl pr_msgs].
+    destruct (negb (pr_rtx c) || pr_abandoned s c); [discriminate|]. intros H; inversion H; subst; clear H. cbn [pr_set_core pr_infl pr_msgs].
     eapply pr_ent_mono; [apply pr_check_status_le|].
+    eapply pr_put_Forall; eauto. cbn. rewrite Forall_forall in He. apply He. eapply pr_get_in; eauto.
+  - unfold pr_unmark. destruct (pr_get (pr_infl s) t) as [c|] eqn:Eg; [|discriminate].
+    destruct (pr_rtx c && pr_abandoned s c); [|discriminate]. intros H; inversion H; subst; clear H. cbn [pr_set_core pr_infl pr_msgs].
     eapply pr_put_Forall; eauto. cbn. rewrite Forall_forall in He. apply He. eapply pr_get_in; eauto.
   - unfold pr_fast_retransmit. destruct (pr_get (pr_infl s) t) as [c|] eqn:Eg; [|discriminate].
     destruct (pr_acked c || pr_abandoned s c || (pr_nsent c >? 1)); [discriminate|]. intros H; inversion H; subst; clear H.
@@ -401,15 +404,17 @@ Definition pr_nb_chunk (sid N : Z) (msgs : list pr_minfo) (c : pr_chunk) : Prop 
   pr_sid c = sid -> pr_dcep c = false ->
   1 <= pr_nsent c /\
   (pr_msg_flag msgs (pr_msg c) = false -> pr_nsent c < N) /\
-  pr_nsent c + (if pr_rtx c then 1 else 0) <= N + 1.
+  pr_nsent c <= Z.max N 1 /\
+  (pr_rtx c = true -> pr_msg_allinfl msgs (pr_msg c) = true).
 
 Definition pr_nb_inv (sid N : Z) (s : pr_state) : Prop := Forall (pr_nb_chunk sid N (pr_msgs s)) (pr_infl s).
 
 Lemma pr_nb_mono sid N m1 m2 c : pr_msgs_le m1 m2 -> pr_nb_chunk sid N m1 c -> pr_nb_chunk sid N m2 c.
 Proof.
-  intros Hle H Hs Hd. destruct (H Hs Hd) as (I1 & I2 & J). repeat split; auto.
-  intros Hf. apply I2. destruct (pr_msg_flag m1 (pr_msg c)) eqn:E; [|reflexivity].
-  rewrite (pr_msgs_le_flag _ _ _ Hle E) in Hf. discriminate.
+  intros Hle H Hs Hd. destruct (H Hs Hd) as (I1 & I2 & J & P). repeat split; auto.
+  - intros Hf. apply I2. destruct (pr_msg_flag m1 (pr_msg c)) eqn:E; [|reflexivity].
+    rewrite (pr_msgs_le_flag _ _ _ Hle E) in Hf. discriminate.
+  - intros Hr. eapply pr_msgs_le_allinfl; eauto.
 Qed.
 
 Lemma pr_nb_mono_all sid N m1 m2 l : pr_msgs_le m1 m2 -> Forall (pr_nb_chunk sid N m1) l -> Forall (pr_nb_chunk sid N m2) l.
@@ -426,12 +431,15 @@ Qed.
 
 Lemma pr_nb_after_check s sid N msgs c now :
   pr_rexmit_stream s sid N -> pr_minfo_get (pr_msg c) msgs <> None ->
-  1 <= pr_nsent c -> pr_nsent c + (if pr_rtx c then 1 else 0) <= N + 1 ->
+  1 <= pr_nsent c -> pr_nsent c <= Z.max N 1 ->
+  (pr_rtx c = true -> pr_msg_allinfl msgs (pr_msg c) = true) ->
   pr_nb_chunk sid N (pr_check_status s msgs c now) c.
 Proof.
-  intros Hst Hent H1 HJ Hs Hd. rewrite (pr_check_rexmit s sid N msgs c now Hst Hs Hd).
-  repeat split; auto. destruct (pr_nsent c >=? N) eqn:E; [|intros _; lia].
-  rewrite pr_set_aband_flag by exact Hent. discriminate.
+  intros Hst Hent H1 HJ HP Hs Hd. rewrite (pr_check_rexmit s sid N msgs c now Hst Hs Hd).
+  split; [exact H1|]. split; [|split; [exact HJ|]].
+  - destruct (pr_nsent c >=? N) eqn:E; [|intros _; lia].
+    rewrite pr_set_aband_flag by exact Hent. discriminate.
+  - intros Hr. destruct (pr_nsent c >=? N); [|auto]. eapply pr_msgs_le_allinfl; [apply pr_set_aband_le|auto].
 Qed.
 
 Lemma pr_step_static s e s' o sid N : pr_rexmit_stream s sid N -> pr_step s e = Some (s', o) -> pr_rexmit_stream s' sid N.
@@ -440,7 +448,7 @@ Proof.
   assert (G : pr_pol s' = pr_pol s /\ pr_usefwd s' = pr_usefwd s /\ pr_useifwd s' = pr_useifwd s -> 
               pr_pol_get sid (pr_pol s') = Some (c_ReliabilityTypeRexmit, N) /\ pr_usefwd s' || pr_useifwd s' = true).
   { intros (-> & -> & ->). auto. }
-  intros H. apply G. clear G. destruct e as [c now|t| |t now|t now|cum gaps| ]; cbn [pr_step] in H.
+  intros H. apply G. clear G. destruct e as [c now|t| |t now|t|t now|cum gaps| ]; cbn [pr_step] in H.
   - destruct (pr_send s c now) as [s1|] eqn:E; [|discriminate]. inversion H; subst.
     destruct (pr_send_shape _ _ _ _ E) as (m2 & _ & _ & _ & _ & ->). cbn. auto.
   - unfold pr_mark in H. destruct (pr_get (pr_infl s) t) as [c|]; [|discriminate].
@@ -448,7 +456,9 @@ Proof.
   - inversion H; subst. unfold pr_t3, pr_mark_all_rtx. cbn [pr_set_core pr_pol pr_usefwd pr_useifwd].
     destruct (pr_advance_fields s false) as (_ & _ & A3 & _ & _ & A6 & A7). auto.
   - unfold pr_retransmit in H. destruct (pr_get (pr_infl s) t) as [c|]; [|discriminate].
-    destruct (negb (pr_rtx c)); [discriminate|]. inversion H; subst. cbn. auto.
+    destruct (negb (pr_rtx c) || pr_abandoned s c); [discriminate|]. inversion H; subst. cbn. auto.
+  - unfold pr_unmark in H. destruct (pr_get (pr_infl s) t) as [c|]; [|discriminate].
+    destruct (pr_rtx c && pr_abandoned s c); [|discriminate]. inversion H; subst. cbn. auto.
   - unfold pr_fast_retransmit in H. destruct (pr_get (pr_infl s) t) as [c|]; [|discriminate].
     destruct (pr_acked c || pr_abandoned s c || (pr_nsent c >? 1)); [discriminate|]. inversion H; subst. cbn. auto.
   - destruct (pr_sack s cum gaps) as [s1|] eqn:E; [|discriminate]. inversion H; subst.
@@ -466,26 +476,26 @@ Proof.
   intros HN Hst Hent Hinv Hwh. unfold pr_nb_inv in *.
   assert (Hin : forall c, In c (pr_infl s) -> pr_nb_chunk sid N (pr_msgs s) c /\ pr_minfo_get (pr_msg c) (pr_msgs s) <> None).
   { intros c Hc. split; [rewrite Forall_forall in Hinv; auto|]. unfold pr_ent in Hent. rewrite Forall_forall in Hent. auto. }
-  (* a chunk that loss recovery may select: not abandoned while its message is entirely in flight -> flag unset *)
-  assert (Hsel : forall c, In c (pr_infl s) -> pr_whole s sid -> pr_abandoned s c = false ->
+  (* a chunk that may be (re)transmitted or selected: not abandoned while its message is entirely in flight -> flag unset *)
+  assert (Hsel : forall c, In c (pr_infl s) -> pr_msg_allinfl (pr_msgs s) (pr_msg c) = true -> pr_abandoned s c = false ->
                            pr_sid c = sid -> pr_dcep c = false -> 1 <= pr_nsent c < N).
   { intros c Hc Hw Ha Hs Hd. destruct (Hin c Hc) as (Hnb & _). destruct (Hnb Hs Hd) as (I1 & I2 & _).
-    unfold pr_abandoned in Ha. rewrite pr_abandoned_split, (Hw c Hc Hs), andb_true_r in Ha. split; [exact I1|exact (I2 Ha)]. }
-  destruct e as [c now|t| |t now|t now|cum gaps| ]; cbn [pr_step pr_ev_loss] in *.
+    unfold pr_abandoned in Ha. rewrite pr_abandoned_split, Hw, andb_true_r in Ha. split; [exact I1|exact (I2 Ha)]. }
+  destruct e as [c now|t| |t now|t|t now|cum gaps| ]; cbn [pr_step pr_ev_loss] in *.
   - (* send *)
     destruct (pr_send s c now) as [s1|] eqn:E; [|discriminate]. intros H; inversion H; subst; clear H.
     destruct (pr_send_shape _ _ _ _ E) as (m2 & Hle & (x & Hx & _) & _ & _ & ->). cbn [pr_infl pr_msgs].
     set (c1 := pr_with c 1 false false now).
     apply Forall_app. split.
     + eapply pr_nb_mono_all; [|exact Hinv]. eapply pr_msgs_le_trans; [exact Hle|apply pr_check_status_le].
-    + constructor; [|constructor]. apply pr_nb_after_check; auto; cbn; try lia. congruence.
+    + constructor; [|constructor]. apply pr_nb_after_check; auto; cbn; try lia; try congruence; try discriminate.
   - (* mark *)
     unfold pr_mark. destruct (pr_get (pr_infl s) t) as [c|] eqn:Eg; [|discriminate].
     destruct (pr_acked c || pr_abandoned s c) eqn:Ea; [discriminate|]. intros H; inversion H; subst; clear H.
     cbn [pr_set_core pr_infl pr_msgs]. apply orb_false_iff in Ea. destruct Ea as [Eack Eab].
     eapply pr_put_Forall; eauto. intros Hs Hd. cbn in Hs, Hd. cbn [pr_with pr_nsent pr_rtx pr_msg].
-    assert (Hc := pr_get_in _ _ _ Eg). destruct (Hsel c Hc (Hwh eq_refl) Eab Hs Hd) as (I1 & I2).
-    repeat split; try lia.
+    assert (Hc := pr_get_in _ _ _ Eg). assert (Hw := Hwh eq_refl c Hc Hs).
+    destruct (Hin c Hc) as (Hnb & _). destruct (Hnb Hs Hd) as (I1 & I2 & J & _). repeat split; auto.
   - (* T3 *)
     intros H; inversion H; subst; clear H. unfold pr_t3, pr_mark_all_rtx. cbn [pr_set_core pr_infl pr_msgs].
     destruct (pr_advance_fields s false) as (A1 & A2 & _). rewrite A1, A2.
@@ -493,21 +503,29 @@ Proof.
     destruct (Hin c Hc) as (Hnb & _).
     replace (pr_abandoned (pr_advance s false) c) with (pr_abandoned s c) by (unfold pr_abandoned; rewrite A2; reflexivity).
     destruct (pr_acked c || pr_abandoned s c) eqn:Ea; [exact Hnb|].
-    apply orb_false_iff in Ea. destruct Ea as [Eack Eab].
     intros Hs Hd. cbn in Hs, Hd. cbn [pr_with pr_nsent pr_rtx pr_msg].
-    destruct (Hsel c Hc (Hwh eq_refl) Eab Hs Hd) as (I1 & I2). repeat split; try lia.
-  - (* retransmission of a marked chunk *)
+    assert (Hw := Hwh eq_refl c Hc Hs). destruct (Hnb Hs Hd) as (I1 & I2 & J & _). repeat split; auto.
+  - (* retransmission of a marked chunk (not abandoned: fix 3b069d1) *)
     unfold pr_retransmit. destruct (pr_get (pr_infl s) t) as [c|] eqn:Eg; [|discriminate].
-    destruct (pr_rtx c) eqn:Er; cbn [negb]; [|discriminate]. intros H; inversion H; subst; clear H.
+    destruct (pr_rtx c) eqn:Er; cbn [negb orb]; [|discriminate].
+    destruct (pr_abandoned s c) eqn:Eab; [discriminate|]. intros H; inversion H; subst; clear H.
     cbn [pr_set_core pr_infl pr_msgs].
     set (c1 := pr_with c (wrap32 (pr_nsent c + 1)) (pr_acked c) false (pr_first c)).
     assert (Hc := pr_get_in _ _ _ Eg). destruct (Hin c Hc) as (Hnb & Hen).
     eapply pr_put_Forall; eauto.
     + eapply pr_nb_mono_all; [apply pr_check_status_le|exact Hinv].
-    + intros Hs Hd. cbn in Hs, Hd. destruct (Hnb Hs Hd) as (I1 & I2 & J). rewrite Er in J.
+    + intros Hs Hd. cbn in Hs, Hd. destruct (Hnb Hs Hd) as (_ & _ & _ & P).
+      destruct (Hsel c Hc (P Er) Eab Hs Hd) as (I1 & I2).
       assert (Ew : wrap32 (pr_nsent c + 1) = pr_nsent c + 1) by (unfold wrap32; lia).
-      refine (pr_nb_after_check s sid N (pr_msgs s) c1 now Hst _ _ _ Hs Hd);
-        unfold c1; cbn [pr_with pr_nsent pr_rtx pr_msg]; rewrite ?Ew; auto; lia.
+      refine (pr_nb_after_check s sid N (pr_msgs s) c1 now Hst _ _ _ _ Hs Hd);
+        unfold c1; cbn [pr_with pr_nsent pr_rtx pr_msg]; rewrite ?Ew; auto; try lia; try discriminate.
+  - (* the mark of an abandoned chunk is cleared *)
+    unfold pr_unmark. destruct (pr_get (pr_infl s) t) as [c|] eqn:Eg; [|discriminate].
+    destruct (pr_rtx c && pr_abandoned s c); [|discriminate]. intros H; inversion H; subst; clear H.
+    cbn [pr_set_core pr_infl pr_msgs]. eapply pr_put_Forall; eauto.
+    assert (Hc := pr_get_in _ _ _ Eg). destruct (Hin c Hc) as (Hnb & _).
+    intros Hs Hd. cbn in Hs, Hd. destruct (Hnb Hs Hd) as (I1 & I2 & J & _). cbn [pr_with pr_nsent pr_rtx pr_msg].
+    repeat split; auto; try discriminate.
   - (* fast retransmission *)
     unfold pr_fast_retransmit. destruct (pr_get (pr_infl s) t) as [c|] eqn:Eg; [|discriminate].
     destruct (pr_acked c || pr_abandoned s c || (pr_nsent c >? 1)) eqn:Ea; [discriminate|]. intros H; inversion H; subst; clear H.
@@ -516,17 +534,16 @@ Proof.
     assert (Hc := pr_get_in _ _ _ Eg). destruct (Hin c Hc) as (Hnb & Hen).
     eapply pr_put_Forall; eauto.
     + eapply pr_nb_mono_all; [apply pr_check_status_le|exact Hinv].
-    + intros Hs Hd. cbn in Hs, Hd. destruct (Hsel c Hc (Hwh eq_refl) Eab Hs Hd) as (I1 & I2).
+    + intros Hs Hd. cbn in Hs, Hd. assert (Hw := Hwh eq_refl c Hc Hs). destruct (Hsel c Hc Hw Eab Hs Hd) as (I1 & I2).
       assert (Ew : wrap32 (pr_nsent c + 1) = pr_nsent c + 1) by (unfold wrap32; lia).
-      refine (pr_nb_after_check s sid N (pr_msgs s) c1 now Hst _ _ _ Hs Hd);
+      refine (pr_nb_after_check s sid N (pr_msgs s) c1 now Hst _ _ _ _ Hs Hd);
         unfold c1; cbn [pr_with pr_nsent pr_rtx pr_msg]; rewrite ?Ew; auto; try lia.
-      destruct (pr_rtx c); lia.
   - (* SACK *)
     destruct (pr_sack s cum gaps) as [s1|] eqn:E; [|discriminate]. intros H; inversion H; subst; clear H.
     destruct (pr_sack_shape _ _ _ _ E) as (Em & _). rewrite Em.
     eapply pr_sack_Forall; [|exact Hinv|exact E].
-    intros c Hc Hs Hd. cbn in Hs, Hd. destruct (Hc Hs Hd) as (I1 & I2 & J). cbn [pr_ackd pr_with pr_nsent pr_rtx pr_msg].
-    repeat split; auto. destruct (pr_rtx c); lia.
+    intros c Hc Hs Hd. cbn in Hs, Hd. destruct (Hc Hs Hd) as (I1 & I2 & J & _). cbn [pr_ackd pr_with pr_nsent pr_rtx pr_msg].
+    repeat split; auto; try discriminate.
   - intros H. injection H as H. assert (Es : s' = fst (pr_gather_fwd s)) by (rewrite H; reflexivity). subst s'.
     destruct (pr_gather_fields s) as (A1 & A2 & _). rewrite A1, A2. exact Hinv.
 Qed.
@@ -556,7 +573,7 @@ Theorem pr_nsent_bound_thm : forall sid N evs s0 s outs,
   pr_rexmit_stream s0 sid N -> pr_ent s0 -> pr_nb_inv sid N s0 ->
   pr_run_whole sid s0 evs ->
   pr_run s0 evs = Some (s, outs) ->
-  forall c, In c (pr_infl s) -> pr_sid c = sid -> pr_dcep c = false -> 1 <= pr_nsent c <= N + 1.
+  forall c, In c (pr_infl s) -> pr_sid c = sid -> pr_dcep c = false -> 1 <= pr_nsent c <= Z.max N 1.
 Proof.
   intros sid N evs s0 s outs HN Hst He Hi Hw Hr.
   assert (G : pr_rexmit_stream s sid N /\ pr_ent s /\ pr_nb_inv sid N s).
@@ -565,7 +582,7 @@ Proof.
     intros s1 e s2 o (A & B & C) Hg Hs. split; [eapply pr_step_static; eauto|]. split; [eapply pr_step_ent; eauto|].
     eapply pr_step_nb; eauto. }
   destruct G as (_ & _ & G). intros c Hc Hs Hd. unfold pr_nb_inv in G. rewrite Forall_forall in G.
-  destruct (G c Hc Hs Hd) as (I1 & _ & J). split; [exact I1|]. destruct (pr_rtx c); lia.
+  destruct (G c Hc Hs Hd) as (I1 & _ & J & _). split; assumption.
 Qed.
 
 (* ================================================================ C06 (f): DCEP messages are never abandoned *)
@@ -605,7 +622,7 @@ Lemma pr_step_dcep s e s' o : pr_dcep_tab s -> pr_ev_dcep_ok s e -> pr_step s e 
 Proof.
   unfold pr_dcep_tab. intros (F1 & F2) Hok.
   assert (Hin : forall c, In c (pr_infl s) -> pr_dcep_f1 (pr_msgs s) c) by (rewrite Forall_forall in F1; exact F1).
-  destruct e as [c now|t| |t now|t now|cum gaps| ]; cbn [pr_step pr_ev_dcep_ok] in *.
+  destruct e as [c now|t| |t now|t|t now|cum gaps| ]; cbn [pr_step pr_ev_dcep_ok] in *.
   - destruct (pr_send s c now) as [s1|] eqn:E; [|discriminate]. intros H; inversion H; subst; clear H.
     destruct (pr_send_shape _ _ _ _ E) as (m2 & Hle & (x & Hx & HB & HnB) & Hoth & _ & ->). cbn [pr_infl pr_msgs].
     set (c1 := pr_with c 1 false false now).
@@ -631,11 +648,14 @@ Proof.
     apply Forall_forall. intros y Hy. apply in_map_iff in Hy. destruct Hy as (c & <- & Hc).
     specialize (Hin c Hc). destruct (pr_acked c || _); exact Hin.
   - unfold pr_retransmit. destruct (pr_get (pr_infl s) t) as [c|] eqn:Eg; [|discriminate].
-    destruct (negb (pr_rtx c)); [discriminate|]. intros H; inversion H; subst; clear H. cbn [pr_set_core pr_infl pr_msgs].
+    destruct (negb (pr_rtx c) || pr_abandoned s c); [discriminate|]. intros H; inversion H; subst; clear H. cbn [pr_set_core pr_infl pr_msgs].
     assert (Hc := Hin c (pr_get_in _ _ _ Eg)). split.
     + eapply Forall_impl; [intros a; apply pr_dcep_f1_mono; apply pr_check_status_le|].
       eapply pr_put_Forall; eauto.
     + apply pr_check_status_dcep; auto.
+  - unfold pr_unmark. destruct (pr_get (pr_infl s) t) as [c|] eqn:Eg; [|discriminate].
+    destruct (pr_rtx c && pr_abandoned s c); [|discriminate]. intros H; inversion H; subst; clear H. cbn [pr_set_core pr_infl pr_msgs].
+    split; [|exact F2]. eapply pr_put_Forall; eauto. apply (Hin c). eapply pr_get_in; eauto.
   - unfold pr_fast_retransmit. destruct (pr_get (pr_infl s) t) as [c|] eqn:Eg; [|discriminate].
     destruct (pr_acked c || pr_abandoned s c || (pr_nsent c >? 1)); [discriminate|]. intros H; inversion H; subst; clear H.
     cbn [pr_set_core pr_infl pr_msgs]. assert (Hc := Hin c (pr_get_in _ _ _ Eg)). split.
@@ -952,7 +972,7 @@ Lemma pr_step_wf s e s' o :
   pr_enabled s = true -> pr_wf s -> pr_adv_ok s -> pr_small s -> pr_ev_range e ->
   pr_step s e = Some (s', o) -> pr_wf s' /\ pr_adv_ok s' /\ pr_enabled s' = true.
 Proof.
-  intros Hen Hwf Hadv Hsm Hrg. destruct e as [c now|t| |t now|t now|cum gaps| ]; cbn [pr_step pr_ev_range] in *.
+  intros Hen Hwf Hadv Hsm Hrg. destruct e as [c now|t| |t now|t|t now|cum gaps| ]; cbn [pr_step pr_ev_range] in *.
   - (* send *)
     destruct (pr_send s c now) as [s1|] eqn:E; [|discriminate]. intros H; inversion H; subst; clear H.
     destruct (pr_send_shape _ _ _ _ E) as (m2 & Hle & _ & _ & Etsn & ->).
@@ -988,10 +1008,16 @@ Proof.
     + unfold pr_enabled, pr_mark_all_rtx. cbn [pr_set_core pr_usefwd pr_useifwd]. rewrite A6, A7. exact Hen.
   - (* retransmit *)
     unfold pr_retransmit. destruct (pr_get (pr_infl s) t) as [c|] eqn:Eg; [|discriminate].
-    destruct (negb (pr_rtx c)); [discriminate|]. intros H; inversion H; subst; clear H.
+    destruct (negb (pr_rtx c) || pr_abandoned s c); [discriminate|]. intros H; inversion H; subst; clear H.
     set (c1 := pr_with c (wrap32 (pr_nsent c + 1)) (pr_acked c) false (pr_first c)).
     assert (Hs : pr_skel (pr_infl s) (pr_put (pr_infl s) t c1)) by (eapply pr_put_skel; eauto; apply pr_core_eq_with).
     split; [eapply pr_wf_skel; eauto|split; [eapply pr_adv_ok_skel; eauto; apply pr_check_status_le|exact Hen]].
+  - (* mark of an abandoned chunk cleared *)
+    unfold pr_unmark. destruct (pr_get (pr_infl s) t) as [c|] eqn:Eg; [|discriminate].
+    destruct (pr_rtx c && pr_abandoned s c); [|discriminate]. intros H; inversion H; subst; clear H.
+    assert (Hs : pr_skel (pr_infl s) (pr_put (pr_infl s) t (pr_with c (pr_nsent c) (pr_acked c) false (pr_first c))))
+      by (eapply pr_put_skel; eauto; apply pr_core_eq_with).
+    split; [eapply pr_wf_skel; eauto|split; [eapply pr_adv_ok_skel; eauto; apply pr_msgs_le_refl|exact Hen]].
   - (* fast retransmit *)
     unfold pr_fast_retransmit. destruct (pr_get (pr_infl s) t) as [c|] eqn:Eg; [|discriminate].
     destruct (pr_acked c || pr_abandoned s c || (pr_nsent c >? 1)); [discriminate|]. intros H; inversion H; subst; clear H.
@@ -1047,7 +1073,7 @@ Qed.
 
 Lemma pr_step_msgs_le s e s' o : pr_step s e = Some (s', o) -> pr_msgs_le (pr_msgs s) (pr_msgs s').
 Proof.
-  destruct e as [c now|t| |t now|t now|cum gaps| ]; cbn [pr_step].
+  destruct e as [c now|t| |t now|t|t now|cum gaps| ]; cbn [pr_step].
   - destruct (pr_send s c now) as [s1|] eqn:E; [|discriminate]. intros H; inversion H; subst; clear H.
     destruct (pr_send_shape _ _ _ _ E) as (m2 & Hle & _ & _ & _ & ->). cbn [pr_msgs].
     eapply pr_msgs_le_trans; [exact Hle|apply pr_check_status_le].
@@ -1056,7 +1082,9 @@ Proof.
   - intros H; inversion H; subst. unfold pr_t3, pr_mark_all_rtx. cbn [pr_set_core pr_msgs].
     destruct (pr_advance_fields s false) as (_ & A2 & _). rewrite A2. apply pr_msgs_le_refl.
   - unfold pr_retransmit. destruct (pr_get (pr_infl s) t) as [c|]; [|discriminate].
-    destruct (negb (pr_rtx c)); [discriminate|]. intros H; inversion H; subst. apply pr_check_status_le.
+    destruct (negb (pr_rtx c) || pr_abandoned s c); [discriminate|]. intros H; inversion H; subst. apply pr_check_status_le.
+  - unfold pr_unmark. destruct (pr_get (pr_infl s) t) as [c|]; [|discriminate].
+    destruct (pr_rtx c && pr_abandoned s c); [|discriminate]. intros H; inversion H; subst. apply pr_msgs_le_refl.
   - unfold pr_fast_retransmit. destruct (pr_get (pr_infl s) t) as [c|]; [|discriminate].
     destruct (pr_acked c || pr_abandoned s c || (pr_nsent c >? 1)); [discriminate|]. intros H; inversion H; subst. apply pr_check_status_le.
   - destruct (pr_sack s cum gaps) as [s1|] eqn:E; [|discriminate]. intros H; inversion H; subst.
@@ -1729,7 +1757,7 @@ Qed.
 Lemma pr_step_fixed s e s' o : pr_step s e = Some (s', o) ->
   pr_pol s' = pr_pol s /\ pr_usefwd s' = pr_usefwd s /\ pr_useifwd s' = pr_useifwd s.
 Proof.
-  intros H. destruct e as [c now|t| |t now|t now|cum gaps| ]; cbn [pr_step] in H.
+  intros H. destruct e as [c now|t| |t now|t|t now|cum gaps| ]; cbn [pr_step] in H.
   - destruct (pr_send s c now) as [s1|] eqn:E; [|discriminate]. inversion H; subst.
     destruct (pr_send_shape _ _ _ _ E) as (m2 & _ & _ & _ & _ & ->). cbn. auto.
   - unfold pr_mark in H. destruct (pr_get (pr_infl s) t) as [c|]; [|discriminate].
@@ -1737,7 +1765,9 @@ Proof.
   - inversion H; subst. unfold pr_t3, pr_mark_all_rtx. cbn [pr_set_core pr_pol pr_usefwd pr_useifwd].
     destruct (pr_advance_fields s false) as (_ & _ & A3 & _ & _ & A6 & A7). auto.
   - unfold pr_retransmit in H. destruct (pr_get (pr_infl s) t) as [c|]; [|discriminate].
-    destruct (negb (pr_rtx c)); [discriminate|]. inversion H; subst. cbn. auto.
+    destruct (negb (pr_rtx c) || pr_abandoned s c); [discriminate|]. inversion H; subst. cbn. auto.
+  - unfold pr_unmark in H. destruct (pr_get (pr_infl s) t) as [c|]; [|discriminate].
+    destruct (pr_rtx c && pr_abandoned s c); [|discriminate]. inversion H; subst. cbn. auto.
   - unfold pr_fast_retransmit in H. destruct (pr_get (pr_infl s) t) as [c|]; [|discriminate].
     destruct (pr_acked c || pr_abandoned s c || (pr_nsent c >? 1)); [discriminate|]. inversion H; subst. cbn. auto.
   - destruct (pr_sack s cum gaps) as [s1|] eqn:E; [|discriminate]. inversion H; subst.
@@ -1787,41 +1817,43 @@ Fixpoint pr_count_late (L : Z) (p : nat) (s : pr_state) (evs : list pr_ev) : nat
       end
   end%nat.
 
-(* side conditions of the lifetime theorems *)
-Definition pr_lt_side (sid : Z) (strict : bool) (s : pr_state) (e : pr_ev) : Prop :=
-  (pr_ev_loss e = true -> pr_whole s sid) /\
-  (strict = true -> forall t now c, e = PrFrtx t now -> pr_get (pr_infl s) t = Some c -> pr_rtx c = false).
+(* side condition of the lifetime theorem: loss recovery selects chunks only while the messages of the stream are
+   entirely in flight (D21 is what happens otherwise) *)
+Definition pr_lt_side (sid : Z) (s : pr_state) (e : pr_ev) : Prop := pr_ev_loss e = true -> pr_whole s sid.
 
-Definition pr_lt_inv (sid : Z) (B : nat) (s : pr_state) (p K : nat) : Prop :=
+(* K = number of late transmissions of the followed chunk so far *)
+Definition pr_lt_inv (sid : Z) (s : pr_state) (p K : nat) : Prop :=
   exists c, nth_error (pr_infl s) p = Some c /\ pr_sid c = sid /\ pr_dcep c = false /\
-    (pr_msg_flag (pr_msgs s) (pr_msg c) = false -> K = 0%nat) /\
-    (K + (if pr_rtx c then 1 else 0) <= B)%nat.
+    (pr_msg_flag (pr_msgs s) (pr_msg c) = false -> K = 0%nat) /\ (K <= 1)%nat /\
+    (pr_rtx c = true -> pr_msg_allinfl (pr_msgs s) (pr_msg c) = true).
 
-Lemma pr_lt_step sid L (strict : bool) s e s' o p K :
-  let B := if strict then 1%nat else 2%nat in
-  pr_timed_stream s sid L -> pr_ent s -> pr_lt_inv sid B s p K -> pr_lt_side sid strict s e ->
+Lemma pr_lt_step sid L s e s' o p K :
+  pr_timed_stream s sid L -> pr_ent s -> pr_lt_inv sid s p K -> pr_lt_side sid s e ->
   pr_step s e = Some (s', o) ->
   match pr_track p s s' e with
-  | Some p' => pr_lt_inv sid B s' p' (K + (if pr_is_late L s p e then 1 else 0))
+  | Some p' => pr_lt_inv sid s' p' (K + (if pr_is_late L s p e then 1 else 0))
   | None => True
   end.
 Proof.
-  intros B Hst Hent (c & Hc & Hsid & Hdc & Hflag & Hbud) (Hwh & Hstrict).
-  assert (HB : (1 <= B)%nat) by (unfold B; destruct strict; lia).
+  intros Hst Hent (c & Hc & Hsid & Hdc & Hflag & Hbud & HP) Hwh. unfold pr_lt_side in Hwh.
   assert (Hcin : In c (pr_infl s)) by (eapply nth_error_In; eauto).
   assert (Hen : pr_minfo_get (pr_msg c) (pr_msgs s) <> None) by (unfold pr_ent in Hent; rewrite Forall_forall in Hent; auto).
-  (* a step that leaves the chunk at position p as it is and only raises flags *)
-  assert (Same : forall s1, nth_error (pr_infl s1) p = Some c -> pr_msgs_le (pr_msgs s) (pr_msgs s1) -> pr_lt_inv sid B s1 p (K + 0)).
-  { intros s1 Hn Hle. exists c. repeat split; auto; [|lia].
-    intros Hf. rewrite Nat.add_0_r. apply Hflag. destruct (pr_msg_flag (pr_msgs s) (pr_msg c)) eqn:E; [|reflexivity].
-    rewrite (pr_msgs_le_flag _ _ _ Hle E) in Hf. discriminate. }
-  (* selection by loss recovery implies the flag is unset, hence nothing was counted yet *)
-  assert (Hsel : pr_whole s sid -> pr_abandoned s c = false -> K = 0%nat).
-  { intros Hw Ha. apply Hflag. unfold pr_abandoned in Ha. rewrite pr_abandoned_split, (Hw c Hcin Hsid), andb_true_r in Ha. exact Ha. }
-  destruct e as [c' now|t| |t now|t now|cum gaps| ]; cbn [pr_step pr_track pr_is_late pr_ev_loss] in *.
+  (* a step that leaves the chunk at position p as it is (or only clears its mark) and only raises flags *)
+  assert (Same : forall s1 c1, nth_error (pr_infl s1) p = Some c1 -> pr_msgs_le (pr_msgs s) (pr_msgs s1) ->
+                   pr_sid c1 = pr_sid c -> pr_dcep c1 = pr_dcep c -> pr_msg c1 = pr_msg c -> (pr_rtx c1 = true -> pr_rtx c = true) ->
+                   pr_lt_inv sid s1 p (K + 0)).
+  { intros s1 c1 Hn Hle E1 E2 E3 E4. exists c1. rewrite E1, E2, E3. repeat split; auto.
+    - intros Hf. rewrite Nat.add_0_r. apply Hflag. destruct (pr_msg_flag (pr_msgs s) (pr_msg c)) eqn:E; [|reflexivity].
+      rewrite (pr_msgs_le_flag _ _ _ Hle E) in Hf. discriminate.
+    - lia.
+    - intros Hr. eapply pr_msgs_le_allinfl; [exact Hle|]. auto. }
+  (* whoever may transmit or select the chunk finds the flag unset, hence nothing was counted yet *)
+  assert (Hsel : pr_msg_allinfl (pr_msgs s) (pr_msg c) = true -> pr_abandoned s c = false -> K = 0%nat).
+  { intros Hw Ha. apply Hflag. unfold pr_abandoned in Ha. rewrite pr_abandoned_split, Hw, andb_true_r in Ha. exact Ha. }
+  destruct e as [c' now|t| |t now|t|t now|cum gaps| ]; cbn [pr_step pr_track pr_is_late pr_ev_loss] in *.
   - (* send *)
     destruct (pr_send s c' now) as [s1|] eqn:E; [|discriminate]. intros H; injection H as <- <-.
-    destruct (pr_send_shape _ _ _ _ E) as (m2 & Hle & _ & _ & _ & ->). apply Same.
+    destruct (pr_send_shape _ _ _ _ E) as (m2 & Hle & _ & _ & _ & ->). apply (Same _ c); auto.
     + cbn [pr_infl]. rewrite nth_error_app1; [exact Hc|]. apply nth_error_Some. congruence.
     + cbn [pr_msgs]. eapply pr_msgs_le_trans; [exact Hle|apply pr_check_status_le].
   - (* mark *)
@@ -1830,35 +1862,50 @@ Proof.
     destruct (pr_acked cq || pr_abandoned s cq) eqn:Ea; [discriminate|]. intros H; injection H as <- <-.
     destruct (pr_put_pos _ _ (pr_with cq (pr_nsent cq) (pr_acked cq) true (pr_first cq)) _ Ep) as (_ & Hm).
     destruct (Nat.eqb q p) eqn:Eqp.
-    + apply Nat.eqb_eq in Eqp. subst q. rewrite Hc in Eq. inversion Eq; subst cq.
-      apply orb_false_iff in Ea. destruct Ea as [_ Eab]. assert (K = 0%nat) by (apply Hsel; auto). subst K.
-      eexists. cbn [pr_set_core pr_infl pr_msgs]. rewrite Hm, Nat.eqb_refl. split; [reflexivity|]. cbn. repeat split; auto; lia.
-    + apply Same; [|apply pr_msgs_le_refl]. cbn [pr_set_core pr_infl]. rewrite Hm, Eqp. exact Hc.
+    + apply Nat.eqb_eq in Eqp. subst q. rewrite Hc in Eq. injection Eq as <-.
+      eexists. cbn [pr_set_core pr_infl pr_msgs]. rewrite Hm, Nat.eqb_refl. split; [reflexivity|]. cbn [pr_with pr_sid pr_dcep pr_msg pr_rtx].
+      split; [exact Hsid|]. split; [exact Hdc|]. split; [intros Hf; rewrite Nat.add_0_r; auto|]. split; [lia|].
+      intros _. apply (Hwh eq_refl c Hcin Hsid).
+    + apply (Same _ c); auto; [|apply pr_msgs_le_refl]. cbn [pr_set_core pr_infl]. rewrite Hm, Eqp. exact Hc.
   - (* T3 *)
     intros H; injection H as <- <-. unfold pr_t3, pr_mark_all_rtx.
     destruct (pr_advance_fields s false) as (A1 & A2 & _).
     replace (pr_abandoned (pr_advance s false)) with (pr_abandoned s) by (unfold pr_abandoned; rewrite A2; reflexivity).
     destruct (pr_acked c || pr_abandoned s c) eqn:Ea.
-    + apply Same; [|cbn [pr_set_core pr_msgs]; rewrite A2; apply pr_msgs_le_refl].
+    + apply (Same _ c); auto; [|cbn [pr_set_core pr_msgs]; rewrite A2; apply pr_msgs_le_refl].
       cbn [pr_set_core pr_infl]. rewrite A1, nth_error_map, Hc. cbn. rewrite Ea. reflexivity.
-    + apply orb_false_iff in Ea. destruct Ea as [Eack Eab]. assert (K = 0%nat) by (apply Hsel; auto). subst K.
-      eexists. cbn [pr_set_core pr_infl pr_msgs]. rewrite A1, A2, nth_error_map, Hc. cbn [option_map]. rewrite Eack, Eab. cbn [orb].
-      split; [reflexivity|]. cbn. repeat split; auto; lia.
-  - (* retransmission of a marked chunk *)
+    + eexists. cbn [pr_set_core pr_infl pr_msgs]. rewrite A1, A2, nth_error_map, Hc. cbn [option_map]. rewrite Ea.
+      split; [reflexivity|]. cbn [pr_with pr_sid pr_dcep pr_msg pr_rtx].
+      split; [exact Hsid|]. split; [exact Hdc|]. split; [intros Hf; rewrite Nat.add_0_r; auto|]. split; [lia|].
+      intros _. apply (Hwh eq_refl c Hcin Hsid).
+  - (* retransmission of a marked chunk: it is not abandoned (fix 3b069d1) *)
     unfold pr_retransmit. rewrite pr_get_pos_of. destruct (pr_pos_of (pr_infl s) t) as [q|] eqn:Ep; [|discriminate].
     destruct (nth_error (pr_infl s) q) as [cq|] eqn:Eq; [|discriminate].
-    destruct (pr_rtx cq) eqn:Er; cbn [negb]; [|discriminate]. intros H; injection H as <- <-.
+    destruct (pr_rtx cq) eqn:Er; cbn [negb orb]; [|discriminate].
+    destruct (pr_abandoned s cq) eqn:Eab; [discriminate|]. intros H; injection H as <- <-.
     set (c1 := pr_with cq (wrap32 (pr_nsent cq + 1)) (pr_acked cq) false (pr_first cq)).
     destruct (pr_put_pos _ _ c1 _ Ep) as (_ & Hm). rewrite Hc.
     destruct (Nat.eqb q p) eqn:Eqp.
-    + apply Nat.eqb_eq in Eqp. subst q. rewrite Hc in Eq. inversion Eq; subst cq. rewrite Er in Hbud. cbn [andb].
+    + apply Nat.eqb_eq in Eqp. subst q. rewrite Hc in Eq. injection Eq as <-. cbn [andb].
+      assert (K = 0%nat) by (apply Hsel; auto). subst K.
       exists c1. cbn [pr_set_core pr_infl pr_msgs]. rewrite Hm, Nat.eqb_refl. split; [reflexivity|].
       split; [exact Hsid|]. split; [exact Hdc|].
       rewrite (pr_check_timed s sid L (pr_msgs s) c1 now Hst Hsid Hdc). cbn [c1 pr_with pr_first pr_msg pr_rtx].
       destruct (pr_elapsed_ms now (pr_first c) >=? L) eqn:El.
-      * split; [rewrite pr_set_aband_flag by exact Hen; discriminate|lia].
-      * split; [intros Hf; rewrite Nat.add_0_r; auto|lia].
-    + cbn [andb]. apply Same; [cbn [pr_set_core pr_infl]; rewrite Hm, Eqp; exact Hc|cbn [pr_set_core pr_msgs]; apply pr_check_status_le].
+      * split; [rewrite pr_set_aband_flag by exact Hen; discriminate|]. split; [lia|discriminate].
+      * split; [intros _; reflexivity|]. split; [lia|discriminate].
+    + cbn [andb]. apply (Same _ c); auto; [cbn [pr_set_core pr_infl]; rewrite Hm, Eqp; exact Hc|cbn [pr_set_core pr_msgs]; apply pr_check_status_le].
+  - (* the mark of an abandoned chunk is cleared *)
+    unfold pr_unmark. rewrite pr_get_pos_of. destruct (pr_pos_of (pr_infl s) t) as [q|] eqn:Ep; [|discriminate].
+    destruct (nth_error (pr_infl s) q) as [cq|] eqn:Eq; [|discriminate].
+    destruct (pr_rtx cq && pr_abandoned s cq); [|discriminate]. intros H; injection H as <- <-.
+    destruct (pr_put_pos _ _ (pr_with cq (pr_nsent cq) (pr_acked cq) false (pr_first cq)) _ Ep) as (_ & Hm).
+    destruct (Nat.eqb q p) eqn:Eqp.
+    + apply Nat.eqb_eq in Eqp. subst q. rewrite Hc in Eq. injection Eq as <-.
+      apply (Same _ (pr_with c (pr_nsent c) (pr_acked c) false (pr_first c))); auto; try apply pr_msgs_le_refl.
+      * cbn [pr_set_core pr_infl]. rewrite Hm, Nat.eqb_refl. reflexivity.
+      * cbn. discriminate.
+    + apply (Same _ c); auto; [|apply pr_msgs_le_refl]. cbn [pr_set_core pr_infl]. rewrite Hm, Eqp. exact Hc.
   - (* fast retransmission *)
     unfold pr_fast_retransmit. rewrite pr_get_pos_of. destruct (pr_pos_of (pr_infl s) t) as [q|] eqn:Ep; [|discriminate].
     destruct (nth_error (pr_infl s) q) as [cq|] eqn:Eq; [|discriminate].
@@ -1866,19 +1913,19 @@ Proof.
     set (c1 := pr_with cq (wrap32 (pr_nsent cq + 1)) (pr_acked cq) (pr_rtx cq) (pr_first cq)).
     destruct (pr_put_pos _ _ c1 _ Ep) as (_ & Hm). rewrite Hc.
     destruct (Nat.eqb q p) eqn:Eqp.
-    + apply Nat.eqb_eq in Eqp. subst q. rewrite Hc in Eq. inversion Eq; subst cq. cbn [andb].
+    + apply Nat.eqb_eq in Eqp. subst q. rewrite Hc in Eq. injection Eq as <-. cbn [andb].
       apply orb_false_iff in Ea. destruct Ea as [Ea _]. apply orb_false_iff in Ea. destruct Ea as [_ Eab].
+      assert (Hw := Hwh eq_refl c Hcin Hsid).
       assert (K = 0%nat) by (apply Hsel; auto). subst K.
-      assert (Hpend : strict = true -> pr_rtx c = false).
-      { intros Hs. apply (Hstrict Hs t now c eq_refl). rewrite pr_get_pos_of, Ep. exact Hc. }
       exists c1. cbn [pr_set_core pr_infl pr_msgs]. rewrite Hm, Nat.eqb_refl. split; [reflexivity|].
       split; [exact Hsid|]. split; [exact Hdc|].
       rewrite (pr_check_timed s sid L (pr_msgs s) c1 now Hst Hsid Hdc). cbn [c1 pr_with pr_first pr_msg pr_rtx].
+      assert (Hall : forall m', pr_msgs_le (pr_msgs s) m' -> pr_rtx c = true -> pr_msg_allinfl m' (pr_msg c) = true)
+        by (intros m' Hle _; eapply pr_msgs_le_allinfl; eauto).
       destruct (pr_elapsed_ms now (pr_first c) >=? L) eqn:El.
-      * split; [rewrite pr_set_aband_flag by exact Hen; discriminate|].
-        unfold B. destruct strict; [rewrite (Hpend eq_refl); lia|destruct (pr_rtx c); lia].
-      * split; [intros _; reflexivity|]. destruct (pr_rtx c); lia.
-    + cbn [andb]. apply Same; [cbn [pr_set_core pr_infl]; rewrite Hm, Eqp; exact Hc|cbn [pr_set_core pr_msgs]; apply pr_check_status_le].
+      * split; [rewrite pr_set_aband_flag by exact Hen; discriminate|]. split; [lia|]. apply Hall. apply pr_set_aband_le.
+      * split; [intros _; reflexivity|]. split; [lia|]. apply Hall. apply pr_msgs_le_refl.
+    + cbn [andb]. apply (Same _ c); auto; [cbn [pr_set_core pr_infl]; rewrite Hm, Eqp; exact Hc|cbn [pr_set_core pr_msgs]; apply pr_check_status_le].
   - (* SACK *)
     destruct (pr_sack s cum gaps) as [s1|] eqn:E; [|discriminate]. intros H; injection H as -> <-.
     destruct (pr_sack_list _ _ _ _ E) as (k & Hk & Hrel). destruct (pr_sack_shape _ _ _ _ E) as (Em & _).
@@ -1891,9 +1938,9 @@ Proof.
     destruct Hcore as (_ & Es & _ & _ & _ & _ & _ & Emsg & Edc).
     exists b. split; [exact Hb|]. rewrite <- Es, <- Edc, <- Emsg, Em. repeat split; auto.
     + intros Hf. rewrite Nat.add_0_r. auto.
-    + destruct (pr_rtx b) eqn:Erb; [rewrite (Hrt eq_refl) in Hbud; lia|destruct (pr_rtx c); lia].
+    + lia.
   - intros H. injection H as H. assert (Es : s' = fst (pr_gather_fwd s)) by (rewrite H; reflexivity). subst s'.
-    destruct (pr_gather_fields s) as (A1 & A2 & _). apply Same; [rewrite A1; exact Hc|rewrite A2; apply pr_msgs_le_refl].
+    destruct (pr_gather_fields s) as (A1 & A2 & _). apply (Same _ c); auto; [rewrite A1; exact Hc|rewrite A2; apply pr_msgs_le_refl].
 Qed.
 
 Lemma pr_step_timed s e s' o sid L : pr_timed_stream s sid L -> pr_step s e = Some (s', o) -> pr_timed_stream s' sid L.
@@ -1901,49 +1948,37 @@ Proof.
   unfold pr_timed_stream, pr_enabled. intros (Hp & He) H. destruct (pr_step_fixed _ _ _ _ H) as (-> & -> & ->). auto.
 Qed.
 
-Theorem pr_lifetime_gen : forall sid L (strict : bool) evs s0 p0 K0,
-  let B := if strict then 1%nat else 2%nat in
-  pr_timed_stream s0 sid L -> pr_ent s0 -> pr_lt_inv sid B s0 p0 K0 ->
-  pr_run_ok (pr_lt_side sid strict) s0 evs ->
-  (K0 + pr_count_late L p0 s0 evs <= B)%nat.
+Theorem pr_lifetime_gen : forall sid L evs s0 p0 K0,
+  pr_timed_stream s0 sid L -> pr_ent s0 -> pr_lt_inv sid s0 p0 K0 ->
+  pr_run_ok (pr_lt_side sid) s0 evs ->
+  (K0 + pr_count_late L p0 s0 evs <= 1)%nat.
 Proof.
-  intros sid L strict evs. induction evs as [|e r IH]; intros s0 p0 K0 B Hst Hent Hinv Hok; cbn [pr_count_late].
-  - destruct Hinv as (c & _ & _ & _ & _ & Hb). lia.
+  intros sid L evs. induction evs as [|e r IH]; intros s0 p0 K0 Hst Hent Hinv Hok; cbn [pr_count_late].
+  - destruct Hinv as (c & _ & _ & _ & _ & Hb & _). lia.
   - destruct Hok as [Hside Hr]. destruct (pr_step s0 e) as [[s1 o1]|] eqn:E.
-    + assert (Hstep := pr_lt_step sid L strict s0 e s1 o1 p0 K0 Hst Hent Hinv Hside E). cbv zeta in Hstep.
+    + assert (Hstep := pr_lt_step sid L s0 e s1 o1 p0 K0 Hst Hent Hinv Hside E).
       destruct (pr_track p0 s0 s1 e) as [p1|] eqn:Et.
       * assert (G := IH s1 p1 (K0 + (if pr_is_late L s0 p0 e then 1 else 0))%nat
-                       (pr_step_timed _ _ _ _ _ _ Hst E) (pr_step_ent _ _ _ _ Hent E) Hstep Hr). cbv zeta in G. fold B in G. lia.
+                       (pr_step_timed _ _ _ _ _ _ Hst E) (pr_step_ent _ _ _ _ Hent E) Hstep Hr). lia.
       * destruct e; cbn [pr_track] in Et; try discriminate.
-        cbn [pr_is_late]. destruct Hinv as (c & _ & _ & _ & _ & Hb). lia.
-    + destruct Hinv as (c & _ & _ & _ & _ & Hb). lia.
+        cbn [pr_is_late]. destruct Hinv as (c & _ & _ & _ & _ & Hb & _). lia.
+    + destruct Hinv as (c & _ & _ & _ & _ & Hb & _). lia.
 Qed.
 
-(* for any chunk in flight on a stream with lifetime L (not DCEP): along every history in which loss recovery
-   selects chunks only while the messages of the stream are entirely in flight, and a chunk that is already
-   marked for retransmission is not also fast-retransmitted, at most ONE transmission of the chunk happens at a
-   time >= firstSent + L (the one at which the status check abandons the message) *)
+(* for any chunk in flight on a stream with lifetime L (not DCEP) whose retransmit mark, if set, was set while its
+   message was entirely in flight: along every history in which loss recovery selects chunks only while the messages
+   of the stream are entirely in flight, at most ONE transmission of the chunk happens at a time >= firstSent + L
+   (the one at which the status check abandons the message) *)
 Theorem pr_lifetime_thm : forall sid L evs s0 p0 c,
   pr_timed_stream s0 sid L -> pr_ent s0 ->
   nth_error (pr_infl s0) p0 = Some c -> pr_sid c = sid -> pr_dcep c = false ->
-  pr_run_ok (pr_lt_side sid true) s0 evs ->
+  (pr_rtx c = true -> pr_msg_allinfl (pr_msgs s0) (pr_msg c) = true) ->
+  pr_run_ok (pr_lt_side sid) s0 evs ->
   (pr_count_late L p0 s0 evs <= 1)%nat.
 Proof.
-  intros sid L evs s0 p0 c Hst Hent Hc Hsid Hdc Hok.
-  apply (pr_lifetime_gen sid L true evs s0 p0 0%nat Hst Hent); [|exact Hok].
-  exists c. repeat split; auto. destruct (pr_rtx c); lia.
-Qed.
-
-(* without the second side condition: at most two *)
-Theorem pr_lifetime_weak_thm : forall sid L evs s0 p0 c,
-  pr_timed_stream s0 sid L -> pr_ent s0 ->
-  nth_error (pr_infl s0) p0 = Some c -> pr_sid c = sid -> pr_dcep c = false ->
-  pr_run_ok (pr_lt_side sid false) s0 evs ->
-  (pr_count_late L p0 s0 evs <= 2)%nat.
-Proof.
-  intros sid L evs s0 p0 c Hst Hent Hc Hsid Hdc Hok.
-  apply (pr_lifetime_gen sid L false evs s0 p0 0%nat Hst Hent); [|exact Hok].
-  exists c. repeat split; auto. destruct (pr_rtx c); lia.
+  intros sid L evs s0 p0 c Hst Hent Hc Hsid Hdc HP Hok.
+  apply (pr_lifetime_gen sid L evs s0 p0 0%nat Hst Hent); [|exact Hok].
+  exists c. repeat split; auto.
 Qed.
 
 (* one step: a (re)transmission at an age >= L abandons the message (flag on the head fragment) *)
@@ -1957,7 +1992,7 @@ Proof.
   assert (Hen : pr_minfo_get (pr_msg c) (pr_msgs s) <> None).
   { unfold pr_ent in Hent. rewrite Forall_forall in Hent. apply Hent. eapply pr_get_in; eauto. }
   destruct H as [H|H].
-  - unfold pr_retransmit in H. rewrite Hg in H. destruct (negb (pr_rtx c)); [discriminate|]. inversion H; subst; clear H.
+  - unfold pr_retransmit in H. rewrite Hg in H. destruct (negb (pr_rtx c) || pr_abandoned s c); [discriminate|]. inversion H; subst; clear H.
     cbn [pr_set_core pr_msgs]. rewrite (pr_check_timed s (pr_sid c) L) by auto. cbn [pr_with pr_first pr_msg].
     replace (pr_elapsed_ms now (pr_first c) >=? L) with true by lia. apply pr_set_aband_flag. exact Hen.
   - unfold pr_fast_retransmit in H. rewrite Hg in H. destruct (pr_acked c || pr_abandoned s c || (pr_nsent c >? 1)); [discriminate|].
@@ -1998,19 +2033,8 @@ Proof.
   apply pr_run_okb_sound. intros s0 e H Hl. unfold pr_whole_sideb in H. rewrite Hl in H. cbn in H. apply pr_wholeb_sound. exact H.
 Qed.
 
-Definition pr_lt_sideb (sid : Z) (strict : bool) (s : pr_state) (e : pr_ev) : bool :=
-  pr_whole_sideb sid s e &&
-  (negb strict || match e with
-                  | PrFrtx t _ => match pr_get (pr_infl s) t with Some c => negb (pr_rtx c) | None => true end
-                  | _ => true
-                  end).
-
-Lemma pr_lt_sideb_sound sid strict evs s : pr_run_okb (pr_lt_sideb sid strict) s evs = true -> pr_run_ok (pr_lt_side sid strict) s evs.
-Proof.
-  apply pr_run_okb_sound. intros s0 e H. unfold pr_lt_sideb in H. apply andb_true_iff in H. destruct H as [H1 H2]. split.
-  - intros Hl. unfold pr_whole_sideb in H1. rewrite Hl in H1. cbn in H1. apply pr_wholeb_sound. exact H1.
-  - intros Hs t now c -> Hg. rewrite Hs, Hg in H2. cbn in H2. apply negb_true_iff in H2. exact H2.
-Qed.
+Lemma pr_lt_sideb_sound sid evs s : pr_run_okb (pr_whole_sideb sid) s evs = true -> pr_run_ok (pr_lt_side sid) s evs.
+Proof. apply pr_run_wholeb_sound. Qed.
 
 Definition pr_ev_saneb (s : pr_state) (e : pr_ev) : bool :=
   match e with PrSack cum _ => (0 <=? cum) && (cum <? 4294967296) | _ => true end &&
@@ -2077,12 +2101,13 @@ Qed.
 (* abandoned chunks are never selected by loss recovery *)
 Theorem pr_abandoned_not_marked_thm : forall s t c,
   pr_get (pr_infl s) t = Some c -> pr_abandoned s c = true ->
-  pr_mark s t = None /\ (forall now, pr_fast_retransmit s t now = None) /\
+  pr_mark s t = None /\ (forall now, pr_fast_retransmit s t now = None) /\ (forall now, pr_retransmit s t now = None) /\
   (forall c', In c' (pr_infl (pr_mark_all_rtx s)) -> pr_msg c' = pr_msg c -> pr_rtx c' = true ->
      exists c0, In c0 (pr_infl s) /\ pr_rtx c0 = true /\ pr_msg c0 = pr_msg c).
 Proof.
-  intros s t c Hg Ha. split; [unfold pr_mark; rewrite Hg, Ha, orb_true_r; reflexivity|]. split.
+  intros s t c Hg Ha. split; [unfold pr_mark; rewrite Hg, Ha, orb_true_r; reflexivity|]. split; [|split].
   - intros now. unfold pr_fast_retransmit. rewrite Hg, Ha, orb_true_r. reflexivity.
+  - intros now. unfold pr_retransmit. rewrite Hg, Ha, orb_true_r. reflexivity.
   - intros c' Hc' Hm Hr. unfold pr_mark_all_rtx in Hc'. cbn [pr_set_core pr_infl] in Hc'. apply in_map_iff in Hc'.
     destruct Hc' as (c0 & <- & Hc0). destruct (pr_acked c0 || pr_abandoned s c0) eqn:E.
     + exists c0. auto.
